@@ -125,11 +125,16 @@ def _extract_block(block, unit_name, rewrites):
     blocksubs = []
     subs = []
     inserts = []
+    names = []
     i = 1
     while i < len(block):
         line = block[i]
         s = line.strip()
-        if s.startswith("//@@ SIGSUB"):
+        if s.startswith("//@@ NAME"):
+            # //@@ NAME x <<<regex with one group>>> : $x$ in the inserted proof text stands for whatever the code
+            # calls that local, so that renaming a local does not lose the proof
+            names.append((s.split()[2], _ARG.search(line).group(1).strip()))
+        elif s.startswith("//@@ SIGSUB"):
             parts = _ARG.findall(line)
             sigsubs.append((parts[0], parts[1]))
         elif s.startswith("//@@ SIG"):
@@ -197,6 +202,22 @@ def _extract_block(block, unit_name, rewrites):
         out += sig
         out.append("{")
     btxt = "\n".join(body)
+    bound = {}
+    for nm, rx in names:
+        found = set(re.findall(rx, btxt))
+        if len(found) != 1:
+            raise Undecided("lost anchor: name pattern %r matches %d different names (in %s)" % (rx, len(found), anchor[:50]))
+        bound[nm] = found.pop()
+        rewrites.append("%s: proof text refers to the local `%s` as $%s$" % (anchor[:40], bound[nm], nm))
+
+    def _names(t):
+        for nm, val in bound.items():
+            t = t.replace("$" + nm + "$", val)
+        return t
+    if bound:
+        subs = [(c, _names(o), _names(n)) for c, o, n in subs]
+        blocksubs = [(c, [_names(x) for x in o], [_names(x) for x in n]) for c, o, n in blocksubs]
+        inserts = [(k_, n_, _names(t_), [_names(x) for x in tx]) for k_, n_, t_, tx in inserts]
     for cnt, old, new in subs:
         c = btxt.count(old)
         if c != cnt:
